@@ -42,6 +42,28 @@ CHECKS = {
    design="4/C16"),
 }
 
+
+CHECKS.update({
+ "C07": dict(
+   level="model_checking",
+   text="TLC executes every scenario of StoreScen.tla - 30 struct/array type shapes (nesting <= 2, embedded structs, pointer/slice/map fields) x 3 rendering variants x 108 copying and aliasing contexts x mutated side x mutated leaf path or whole value - on the abstract store of Store.tla, checks on the specification itself the post-condition of Copy, no structure sharing after every instruction, storage identity in aliasing contexts, the statement of C07 on the model and that every copying context is discriminated by some scenario, and emits the predicted probes; every scenario is rendered as Go, compiled by the working tree, run under Node and compared (replay), with the reference toolchain as specification guard. Exhaustive over the stated product in the thorough tier (about 70 000 scenarios), hash-sampled by seed in the quick tier; not a proof for arbitrary programs.",
+   note="Trusted: TLC, Node, native Go as guard, println of <=32-bit integers, and the hand-written correspondence between a context's Go template and its instruction sequence (guarded per scenario by native Go). Leaves are int32/int64 only; one copy/alias step followed by one mutation per scenario.",
+   technique="TLA+ reference semantics (Store.tla object-graph store with Copy) + TLC scenario enumeration and execution (StoreScen.tla) replayed on compiled code",
+   design="4/C07"),
+ "C15": dict(
+   level="model_checking",
+   text="TLC builds a catalog of comparable key types with adversarial value pools (all leaf kinds, named / array / struct versions, special shapes and seeded types to depth 3) and enumerates operation histories; it checks on every pool that key equality is an equivalence exactly on NaN-free keys and on every intermediate state that the entry-set model refines the map-over-equivalence-classes model (len = classes inserted and not deleted), and emits the predicted result of every step (range steps as first/must/may alternatives validated as bags). Every history is executed on JavaScript compiled from the working tree and validated, with the reference toolchain as specification guard. The pairs family is exhaustive inside the bounds; pools and longer histories are sampled by VERIF_SEED.",
+   note="Trusted: TLC, Node, native Go as guard, println of int32/bool. Map values are int32 only; range mutation only in the first iteration; histories <= 6 operations. Known findings listed with classifiers.",
+   technique="TLA+ reference semantics of Go map key equality and map operations (GoMap.tla) + TLC scenario enumeration (GoMapScen.tla) replayed on compiled code; range steps validated as bags",
+   design="4/C15"),
+ "C18": dict(
+   level="model_checking",
+   text="TLC enumerates //go:build expressions (every canonical expression of depth <= 2 over a 19-tag vocabulary in the thorough tier, seed-sampled in quick) x file-name forms x environments x user tag sets with the selection Constraints.tla predicts, and checks on the specification De Morgan/commutativity/double negation, independence of unmentioned tags and the cgo / hidden-file / .inc.js clauses; the harness writes the files into generated package directories and compares the prediction with what the real build.NewBuildContext().Import selects (user packages, GOPHERJS_GOROOT std packages, real GOROOT packages), and builds and runs a sample so that the run-time set of self-registering files equals the selected set. Guards: go/build/constraint and go/build.MatchFile under the specification's tag set.",
+   note="Trusted: TLC, go/build/constraint and go/build.MatchFile as guards (.inc.js rule has no independent guard). Legacy // +build lines, vendor/GOPATH mode and the overlay context's own selection are not covered.",
+   technique="TLA+ reference semantics of build constraints (Constraints.tla) + TLC enumeration replayed on the real file selection and on built programs",
+   design="4/C18"),
+})
+
 NOT_YET = "check not built yet in this round (planned in DESIGN.md section 9)"
 ALL = ["C%02d" % i for i in range(1, 21)]
 
